@@ -1,7 +1,7 @@
 """C01 — GJK distance: feasible, consistent, optimal (structural clauses)."""
 from . import scopes
 from ..core.report import DOMAIN_D
-from ..rules import mink, simplex, loops, buffers, clip
+from ..rules import mink, simplex, loops, buffers, clip, runmin
 
 J = "distance3d.gjk._gjk_jolt"
 
@@ -27,3 +27,4 @@ def run(idx, rep, tier):
     buffers.r_compact(idx, rep, modules={J}, floor=3)
     loops.r_loop(idx, rep, [J], floor=4)
     clip.r_clipguard(idx, rep)
+    runmin.r_runmin(idx, rep, [J], floor=2)
